@@ -252,14 +252,17 @@ package memfs
 //@   ensures[C05] forall n string :: n != name ==> dom(dn.children, n) == old(dom(dn.children, n)) && dn.children[n] == old(dn.children[n])
 
 //@ func (*fileNode).delete
+//@   event
 //@   requires[C08] wheld(fn.mu)
 //@   requires fn.nlink > -9223372036854775807
 //@   ensures[C05] fn.nlink == old(fn.nlink) - 1
 //@   modifies fn.nlink, fn.data
 //@ func (*dirNode).delete
+//@   event
 //@   requires[C08] wheld(dn.mu)
 //@   modifies dn.children
 //@ func (*symlinkNode).delete
+//@   event
 //@   requires[C08] wheld(sn.mu)
 //@   modifies sn.link
 //@ func (*dirNode).size
@@ -270,3 +273,10 @@ package memfs
 //@   requires[C08] held(dn.mu)
 //@ func (*dirNode).dirEntries
 //@   requires[C08] held(dn.mu)
+
+// removeAll releases every entry of the directory it empties: each complete iteration over the
+// children has called delete on that child (a file's link count goes down with its entry).
+//@ func (*MemFS).removeAll
+//@   ranges
+//@   requires parent != nil
+//@   loop 0 step[C05] called(child.delete)
